@@ -199,3 +199,9 @@ def run(ctx):
     marks = [c for c in walk_shallow(bf) if isinstance(c, ast.Call) and dotted(c.func) == 'set_func_beartyped']
     ctx.ob('C13.R5', 'beartype_func:marks-wrapper', nm.where(bf), 'the generated wrapper is marked as beartyped',
            len(marks) == 1 and marks[0].args and dotted(marks[0].args[0]) == dotted(mk[0]._parent.targets[0]) if mk and isinstance(getattr(mk[0], '_parent', None), ast.Assign) else bool(marks), '')
+
+    # ---- R6 ----------------------------------------------------------------------
+    # the "already beartyped" marker lives in the wrapper's __dict__, which functools.wraps copies: a reader that
+    # trusts it treats a wraps-copy of a beartype wrapper as a beartype wrapper (rule shared with C14.R7)
+    from .c14 import _function_attribute_memos
+    _function_attribute_memos(ctx, 'C13.R6', marker=True)
